@@ -258,10 +258,56 @@ pub fn lang_check_cfg(cfg: &ScannerCfg, which: Which, st: &mut Stats) -> Result<
 }
 
 fn synthetic_minimizer_shapes(rng: &mut Rng) -> ScannerCfg {
+    synthetic_minimizer_shape_of(rng, None)
+}
+
+fn synthetic_minimizer_shape_of(rng: &mut Rng, force: Option<usize>) -> ScannerCfg {
     let lit = |c: char| Re::Lit(c, LitStyle::Verbatim);
     let word = |s: &str| Re::Cat(s.chars().map(lit).collect());
     let ab = || Re::Class(Class { neg: false, set: CSet::Union(vec![Item::Range('a', 'b')]) });
-    match rng.below(11) {
+    let kind = force.unwrap_or_else(|| rng.below(13));
+    match kind {
+        // redistribution: x(..)|y(..) where both brackets use the same second letters and the same
+        // tails, but assign the tails to the letters differently - the states after x and after y
+        // have the same classes and reach the same groups, only the association differs
+        // (x(ac|bd)|y(ad|bc), x(a1|a2|b3)|y(a1|b2|b3), x(a|b)c|yac are instances)
+        11 | 12 => {
+            let mut letters = vec!['a', 'b', 'c'];
+            rng.shuffle(&mut letters);
+            letters.truncate(rng.range(2, 3));
+            let ntails = rng.range(2, 4);
+            let tail_pool = ["1", "2", "3", "4", "12", "c", "cc"];
+            let tails: Vec<&str> = (0..ntails).map(|_| tail_pool[rng.below(tail_pool.len())]).collect();
+            let heads = ['x', 'y', 'z'];
+            let nheads = rng.range(2, 3);
+            let mut branches: Vec<Re> = Vec::new();
+            for h in heads.iter().take(nheads) {
+                let mut alts: Vec<Re> = Vec::new();
+                for t in &tails {
+                    let l = *rng.pick(&letters);
+                    let mut w = String::new();
+                    w.push(l);
+                    w.push_str(t);
+                    let r = word(&w);
+                    if !alts.contains(&r) {
+                        alts.push(r);
+                    }
+                }
+                let inner = if alts.len() == 1 { alts.pop().unwrap() } else { Re::Group(GroupKind::NonCapture, Box::new(Re::Alt(alts))) };
+                branches.push(Re::Cat(vec![lit(*h), inner]));
+            }
+            match rng.below(3) {
+                // one pattern
+                0 => ScannerCfg::single(vec![RefPattern { re: Re::Alt(branches), tt: 0, la: None }]),
+                // one pattern per head, one token type
+                1 => ScannerCfg::single(branches.into_iter().map(|re| RefPattern { re, tt: 5, la: None }).collect()),
+                // as a lookahead automaton
+                _ => ScannerCfg::single(vec![
+                    RefPattern { re: lit('k'), tt: 8, la: Some((rng.chance(1, 2), Re::Alt(branches))) },
+                    RefPattern { re: lit('k'), tt: 9, la: None },
+                ]),
+            }
+        }
         // several one-character patterns sharing ONE token type next to periodic words (b-an-an-a,
         // ====, ababab): the refinement needs one round per period, and the accepting groups of
         // the initial partition are fewer than the patterns
@@ -496,6 +542,19 @@ pub fn run_lang(which: Which, tier: Tier) -> i32 {
                 v.case["minimized"] = json!({"patterns": mc.describe(), "what": what, "cfg": mc, "oracle_calls": calls});
                 CaseOutcome::Violated(v)
             }
+        }
+    }));
+    // stream 5: many small finite languages and shared-type/periodic-word modes (cheap, and the
+    // place where the refinement is asked the subtle questions)
+    let nfin = ctx.scale(12_000, 600_000);
+    res.merge(run_cases(&ctx, 5, nfin, |rng, _i, st| {
+        let kind = *rng.pick(&[6usize, 6, 9, 11, 11]);
+        let cfg = synthetic_minimizer_shape_of(rng, Some(kind));
+        st.count("finite_language_programs");
+        st.nontrivial(hash_of(&cfg));
+        match lang_check_cfg(&cfg, which, st) {
+            Ok(()) => CaseOutcome::Ok,
+            Err(v) => CaseOutcome::Violated(v),
         }
     }));
     // stream 2: the systematic {a,b} terms, all singles
